@@ -15,6 +15,21 @@ def gen_cases(tier):
     for i in range(n):
         rng = family.rng_for(sd, PROP, i)
         kind = ["hidden", "hidden", "random", "hidden_rev"][i % 4]
+        if i % 12 == 11:
+            kind = "shared3"
+        if kind == "shared3":
+            # a dividend guarantee over three outputs it shares with the divisor, whose guarantees are column-heavy rows
+            ys = ["v0", "v1", "v2"]
+            sg = rng.choice([1, -1])
+            rows, coef = gen.column_heavy_rows(rng, ys, sg)
+            top = {"inv": ["u"], "outv": ys + ["o"], "a": [({"u": 1}, 5), ({"u": -1}, 5)],
+                   "g": [(dict({"o": 1, "u": -1}, **{y: sg * c for y, c in coef.items()}), rng.randint(8, 14))]}
+            div = {"inv": ["u"] if rng.random() < 0.5 else [], "outv": list(ys), "a": [], "g": rows + ([({ys[1]: -sg}, 0)] if rng.random() < 0.5 else [])}
+            raw = {"kind": "random", "top": top, "div": div}
+            cand = ["u"] + ys
+            cfgs = [([], True, None), ([], False, None), ([], True, [1]), ([], False, [3, 1])]
+            cases.append({"id": i + 1, "raw": raw, "cfgs": cfgs})
+            continue
         if kind.startswith("hidden"):
             schema = rng.choice(["cascade", "casc_shared", "casc_extra", "fanout", "shared", "cascade_rev", "indep"])
             pr = gen.build_pair(rng, schema, dyadic=0.1 if i % 9 == 0 else 0.0)
